@@ -12,7 +12,7 @@
 (***************************************************************************)
 EXTENDS StoneSem, Json
 
-CONSTANTS Scenario, OrderMode, Shard, NShards, EmitVectors
+CONSTANTS Scenario, OrderMode, WFOnly, Shard, NShards, EmitVectors
 VARIABLES inst, order, phase, model
 vars == <<inst, order, phase, model>>
 
@@ -72,12 +72,21 @@ ScenD ==
 
 \* ------------------------------------------------------------- scenario E: enumerated subtypes
 ST(n, t) == [n |-> n, t |-> t]
+ExVariants == { <<>>,
+                <<Ex("default", <<As("f1", "int"), As("g1", "int")>>)>>,
+                <<Ex("default", <<As("f1", "int")>>)>>,                                      \* g1 missing
+                <<Ex("default", <<As("f1", "int"), As("g1", "int"), As("zz", "int")>>)>>,    \* unknown field
+                <<Ex("default", <<As("f1", "int"), As("g1", "int"), As("b", "int")>>)>>,     \* a subtype tag is no field
+                <<Ex("default", <<As("f1", "str"), As("g1", "int")>>)>>,                     \* wrong literal
+                <<Ex("default", <<As("f1", "int"), As("g1", "null")>>)>>,
+                <<Ex("default", <<As("f1", "int"), As("g1", "int")>>), Ex("default", <<As("f1", "int"), As("g1", "int")>>)>> }
 ScenE ==
   { << P("nsa", DStructS("Sa", ea, <<f1>>, TRUE, subs, ca)),
-       P("nsa", DStruct0("Sb", eb, <<DField("g1", I32)>>)),
+       P("nsa", DStructX("Sb", eb, <<DField("g1", I32)>>, FALSE, <<>>, FALSE, ex)),
        P("nsa", DStruct0("Sc", ec, <<DField("h1", I32)>>)),
        P("nsa", DStruct0("Sd", NoRef, <<DField("k1", I32)>>)),
        P("nsa", DUnionS("Ua", TRUE, NoRef, <<VT("t1")>>)) >> :
+      ex \in ExVariants,
       ea \in {NoRef, R("Sd")},
       eb \in {R("Sa"), NoRef},
       ec \in {R("Sa"), R("Sb"), NoRef},
@@ -124,12 +133,14 @@ Identity(n) == [i \in 1..n |-> i]
 CanonModel(ins) == Build(ins, Identity(Len(ins)), 0, FALSE)
 
 \* ------------------------------------------------------------- the machine
-Init == /\ inst \in {i \in DOMAIN InstSeq : i % NShards = Shard}
+\* WFOnly: only the instances that violate no rule (C02 compares accepted models)
+Init == /\ inst \in {i \in DOMAIN InstSeq : i % NShards = Shard /\ (WFOnly => WellFormed(CanonModel(InstSeq[i])))}
         /\ order = <<>> /\ phase = "writing" /\ model = <<>>
 N == Len(InstSeq[inst])
 Remaining == (1..N) \ Range(order)
 Allowed ==
     IF OrderMode = "all" THEN Remaining
+    ELSE IF OrderMode = "one" THEN (IF Remaining = {} THEN {} ELSE {CHOOSE i \in Remaining : \A j \in Remaining : i <= j})
     ELSE \* "two": ascending, descending, or rotated by one (a forward reference across the cut)
          IF order = <<>> THEN {1, N, 2} \cap Remaining
          ELSE IF order[1] = 1 THEN {order[Len(order)] + 1} \cap Remaining
@@ -139,7 +150,8 @@ WriteDef == /\ phase = "writing" /\ Remaining # {}
             /\ \E i \in Allowed : order' = Append(order, i)
             /\ UNCHANGED <<inst, phase, model>>
 Finish == /\ phase = "writing" /\ Remaining = {}
-          /\ \E cut \in {0, 1, 2}, frev \in BOOLEAN :
+          /\ \E cut \in (IF OrderMode = "one" THEN {1} ELSE {0, 1, 2}),
+                frev \in (IF OrderMode = "one" THEN {FALSE} ELSE BOOLEAN) :
                 model' = Build(InstSeq[inst], order, cut, frev)
           /\ phase' = "done"
           /\ UNCHANGED <<inst, order>>
